@@ -94,7 +94,7 @@ mod proofs {
     }
 
     // Same rule inside ONE fragment: regular field, then `:status 200`.
-    // @harness id=hb_load_pseudo_after_regular_field_same_fragment props=C13 kind=bounded bound=fragment=[accept,:status] tier=thorough timeout=2400 fn=HeaderBlock::load
+    // @harness id=hb_load_pseudo_after_regular_field_same_fragment props=C13 kind=bounded bound=fragment=[accept,:status] tier=attempt timeout=2400 fn=HeaderBlock::load
     #[kani::proof]
     #[kani::unwind(12)]
     #[kani::stub(hpack::Decoder::decode, stub_decode_emits_field_then_status)]
